@@ -37,6 +37,9 @@ func (p *Program) mentionsRepoType(name string) bool {
 				p.repoQuals[pkgQualifier(path)] = true
 			}
 		}
+		// the project's own protobuf data model: library code outside the protobuf runtime (which is modelled
+		// separately, see libWriteEffects) never writes these messages
+		p.repoQuals["sdc-protos/sdcpb"] = true
 	}
 	if i := strings.Index(name, ":"); i >= 0 {
 		name = name[i+1:]
